@@ -1,1 +1,262 @@
-// harness for rs/anda_object_store/src/lib.rs (mounted by #[cfg(kani)] hook)
+// @module verif_kani
+// Kani harnesses for rs/anda_object_store/src/lib.rs — property C07 (decision kernels of the
+// store wrappers): check_update_version (CAS), check_get_preconditions (vs. the reference
+// store's own GetOptions::check_preconditions), validate_ranges.
+use super::*;
+
+include!("/verif/harness/common.rs");
+
+/// An optional token of 0..2 symbolic bytes in 'a'..'c' ("", "a", "ab", "A"-free): every pair of
+/// short tokens, so equal / prefix / different all occur.
+struct Tok {
+    buf: [u8; 2],
+    len: usize,
+    some: bool,
+}
+impl Tok {
+    fn any() -> Self {
+        let b0: u8 = kani::any();
+        let b1: u8 = kani::any();
+        kani::assume(b0 >= b'a' && b0 <= b'c' && b1 >= b'a' && b1 <= b'c');
+        let len: usize = kani::any();
+        kani::assume(len <= 2);
+        Tok { buf: [b0, b1], len, some: kani::any() }
+    }
+    fn s(&self) -> &str {
+        unsafe { std::str::from_utf8_unchecked(&self.buf[..self.len]) }
+    }
+    fn opt(&self) -> Option<String> {
+        if self.some { Some(self.s().to_string()) } else { None }
+    }
+    fn same(&self, o: &Tok) -> bool {
+        self.some && o.some && self.len == o.len
+            && (self.len < 1 || self.buf[0] == o.buf[0])
+            && (self.len < 2 || self.buf[1] == o.buf[1])
+    }
+}
+
+// K1 -------------------------------------------------------------------------------------------
+// @check id=C07 tier=quick cap=600 role=cas_iff
+// @fns check_update_version
+// @bound the four Option<String> (current e_tag, current generation, update.e_tag, update.version): each None or a string of 0..2 symbolic bytes in a..c
+// @stubs alloc::fmt::format -> String::new() (error messages only)
+#[kani::proof]
+#[kani::unwind(4)]
+#[kani::stub(alloc::fmt::format, fmt_stub)]
+fn c07_cas_update_iff_token_is_current() {
+    let cur_tag = Tok::any();
+    let cur_gen = Tok::any();
+    let upd_tag = Tok::any();
+    let upd_ver = Tok::any();
+    let loc = Path::from("k");
+    let current_e_tag = cur_tag.opt();
+    let current_generation = cur_gen.opt();
+    let update = UpdateVersion { e_tag: upd_tag.opt(), version: upd_ver.opt() };
+    let r = check_update_version(&loc, &current_e_tag, &current_generation, &update);
+    let expect_ok = upd_tag.some && cur_tag.same(&upd_tag) && (!upd_ver.some || cur_gen.same(&upd_ver));
+    assert!(r.is_ok() == expect_ok, "Update succeeds iff the token is the current one (and the version, if given, is the current generation)");
+    if let Err(e) = &r {
+        assert!(matches!(e, Error::Precondition { .. }), "a failed CAS is a Precondition error");
+    }
+    if !upd_tag.some {
+        assert!(r.is_err(), "a missing token never succeeds");
+    }
+    if !cur_tag.some {
+        assert!(r.is_err(), "None == None is not a match: an object without a token cannot be CAS-updated");
+    }
+    kani::cover!(r.is_ok() && upd_ver.some, "accepted with version clause");
+    kani::cover!(r.is_ok() && !upd_ver.some, "accepted without version clause");
+    kani::cover!(r.is_err() && cur_tag.same(&upd_tag), "rejected by the version clause only");
+    kani::cover!(r.is_err() && upd_tag.some && cur_tag.some && cur_tag.len == 2 && upd_tag.len == 1 && cur_tag.buf[0] == upd_tag.buf[0], "rejected: token is a strict prefix");
+    std::mem::forget((r, update, current_e_tag, current_generation, loc));
+}
+
+// K2 -------------------------------------------------------------------------------------------
+fn instant(i: u8) -> DateTime<Utc> {
+    match i % 3 {
+        0 => DateTime::from_timestamp_millis(1_000).unwrap(),
+        1 => DateTime::from_timestamp_millis(2_000).unwrap(),
+        _ => DateTime::from_timestamp_millis(3_000).unwrap(),
+    }
+}
+fn opt_instant(i: u8) -> Option<DateTime<Utc>> {
+    if i % 4 == 3 { None } else { Some(instant(i)) }
+}
+fn class(r: &Result<()>) -> u8 {
+    match r {
+        Ok(()) => 0,
+        Err(Error::Precondition { .. }) => 1,
+        Err(Error::NotModified { .. }) => 2,
+        Err(_) => 3,
+    }
+}
+/// current logical tag: None or one symbolic byte in a..c
+fn any_current(buf: &mut [u8; 1]) -> Option<&str> {
+    let c: u8 = kani::any();
+    kani::assume(c >= b'a' && c <= b'c');
+    buf[0] = c;
+    if kani::any() { Some(unsafe { std::str::from_utf8_unchecked(&buf[..]) }) } else { None }
+}
+
+/// One header *shape* (concrete If-Match / If-None-Match texts), everything else symbolic.
+fn get_pre_shape(if_match: Option<&'static str>, if_none_match: Option<&'static str>) {
+    let loc = Path::from("k");
+    let mut buf = [0u8; 1];
+    let cur = any_current(&mut buf);
+    let lm = instant(kani::any());
+    let mut opts = GetOptions::default();
+    opts.if_match = if_match.map(|s| s.to_string());
+    opts.if_none_match = if_none_match.map(|s| s.to_string());
+    opts.if_modified_since = opt_instant(kani::any());
+    opts.if_unmodified_since = opt_instant(kani::any());
+    let had_ims = opts.if_modified_since;
+    let had_ius = opts.if_unmodified_since;
+    // reference: the code object_store::memory::InMemory runs
+    let reference = opts.check_preconditions(&ObjectMeta {
+        location: loc.clone(),
+        last_modified: lm,
+        size: 1,
+        e_tag: cur.map(|s| s.to_string()),
+        version: None,
+    });
+    // (a) regular layout: logical last_modified known
+    let mut o2 = opts.clone();
+    let got = check_get_preconditions(&loc, &mut o2, cur, Some(lm));
+    assert!(class(&reference) == class(&got), "same outcome class as the reference store");
+    if got.is_ok() {
+        assert!(o2.if_match.is_none() && o2.if_none_match.is_none(), "answered ETag conditions never reach the backend");
+        assert!(o2.if_modified_since.is_none() && o2.if_unmodified_since.is_none(), "answered date conditions never reach the backend");
+    }
+    // (b) pre-0.10 document: no logical timestamp; date conditions are left to the backend
+    let mut o3 = opts.clone();
+    let got_legacy = check_get_preconditions(&loc, &mut o3, cur, None);
+    let mut no_dates = opts.clone();
+    no_dates.if_modified_since = None;
+    no_dates.if_unmodified_since = None;
+    let reference_no_dates = no_dates.check_preconditions(&ObjectMeta {
+        location: loc.clone(),
+        last_modified: lm,
+        size: 1,
+        e_tag: cur.map(|s| s.to_string()),
+        version: None,
+    });
+    assert!(class(&reference_no_dates) == class(&got_legacy), "legacy: ETag conditions answered exactly as the reference");
+    if got_legacy.is_ok() {
+        assert!(o3.if_match.is_none() && o3.if_none_match.is_none(), "legacy: ETag conditions stripped");
+        // RFC 9110 13.2.2: a date condition is ignored (and must not be forwarded) when its ETag twin is present
+        assert!(o3.if_unmodified_since == if if_match.is_some() { None } else { had_ius }, "legacy: If-Unmodified-Since forwarded iff no If-Match");
+        assert!(o3.if_modified_since == if if_none_match.is_some() { None } else { had_ims }, "legacy: If-Modified-Since forwarded iff no If-None-Match");
+    }
+    kani::cover!(cur.is_some(), "compared with a current tag present");
+    kani::cover!(cur.is_none(), "compared with no current tag");
+    kani::cover!(had_ims.is_some() && had_ius.is_none(), "only If-Modified-Since given");
+    std::mem::forget((reference, got, got_legacy, reference_no_dates, o2, o3, no_dates, opts, loc));
+}
+
+macro_rules! shape {
+    ($name:ident, $im:expr, $inm:expr) => {
+        #[kani::proof]
+        #[kani::unwind(8)]
+        #[kani::stub(alloc::fmt::format, fmt_stub)]
+        #[kani::stub(core::slice::memchr::memchr, memchr_stub)]
+        fn $name() {
+            get_pre_shape($im, $inm);
+        }
+    };
+}
+const STAR: Option<&str> = Some("*");
+const A: Option<&str> = Some("a");
+const B: Option<&str> = Some("b");
+const AB: Option<&str> = Some("a, b");
+const BC: Option<&str> = Some("b,c");
+
+// @check id=C07 tier=quick cap=900 role=get_preconditions_vs_reference seedfam=c07_shapes core=1 harness=c07_pre_none_none,c07_pre_a_none,c07_pre_none_ab,c07_pre_star_bc
+// @fns check_get_preconditions, object_store::GetOptions::check_preconditions (reference)
+// @bound one concrete (If-Match, If-None-Match) text shape per harness out of {None,*,a,b,"a, b","b,c"}^2; current tag None or 1 symbolic byte a..c; last_modified and both date conditions symbolic among 3 instants (+None); both the regular (Some(lm)) and the legacy (None) layout
+// @stubs alloc::fmt::format -> String::new() (error messages only)
+// @stubs core::slice::memchr::memchr -> naive loop
+shape!(c07_pre_none_none, None, None);
+shape!(c07_pre_a_none, A, None);
+shape!(c07_pre_none_ab, None, AB);
+shape!(c07_pre_star_bc, STAR, BC);
+
+// @check id=C07 tier=quick cap=900 role=get_preconditions_vs_reference seedfam=c07_shapes harness=c07_pre_none_star,c07_pre_none_a,c07_pre_none_b,c07_pre_none_bc,c07_pre_star_none,c07_pre_star_star,c07_pre_star_a,c07_pre_star_b,c07_pre_star_ab,c07_pre_a_star,c07_pre_a_a,c07_pre_a_b,c07_pre_a_ab,c07_pre_a_bc,c07_pre_b_none,c07_pre_b_star,c07_pre_b_a,c07_pre_b_b,c07_pre_b_ab,c07_pre_b_bc,c07_pre_ab_none,c07_pre_ab_star,c07_pre_ab_a,c07_pre_ab_b,c07_pre_ab_ab,c07_pre_ab_bc,c07_pre_bc_none,c07_pre_bc_star,c07_pre_bc_a,c07_pre_bc_b,c07_pre_bc_ab,c07_pre_bc_bc
+// @fns check_get_preconditions, object_store::GetOptions::check_preconditions (reference)
+// @bound as the core shapes; the quick tier runs 4 of these 32 chosen by VERIF_SEED, the thorough tier all
+// @stubs alloc::fmt::format -> String::new() (error messages only)
+// @stubs core::slice::memchr::memchr -> naive loop
+shape!(c07_pre_none_star, None, STAR);
+shape!(c07_pre_none_a, None, A);
+shape!(c07_pre_none_b, None, B);
+shape!(c07_pre_none_bc, None, BC);
+shape!(c07_pre_star_none, STAR, None);
+shape!(c07_pre_star_star, STAR, STAR);
+shape!(c07_pre_star_a, STAR, A);
+shape!(c07_pre_star_b, STAR, B);
+shape!(c07_pre_star_ab, STAR, AB);
+shape!(c07_pre_a_star, A, STAR);
+shape!(c07_pre_a_a, A, A);
+shape!(c07_pre_a_b, A, B);
+shape!(c07_pre_a_ab, A, AB);
+shape!(c07_pre_a_bc, A, BC);
+shape!(c07_pre_b_none, B, None);
+shape!(c07_pre_b_star, B, STAR);
+shape!(c07_pre_b_a, B, A);
+shape!(c07_pre_b_b, B, B);
+shape!(c07_pre_b_ab, B, AB);
+shape!(c07_pre_b_bc, B, BC);
+shape!(c07_pre_ab_none, AB, None);
+shape!(c07_pre_ab_star, AB, STAR);
+shape!(c07_pre_ab_a, AB, A);
+shape!(c07_pre_ab_b, AB, B);
+shape!(c07_pre_ab_ab, AB, AB);
+shape!(c07_pre_ab_bc, AB, BC);
+shape!(c07_pre_bc_none, BC, None);
+shape!(c07_pre_bc_star, BC, STAR);
+shape!(c07_pre_bc_a, BC, A);
+shape!(c07_pre_bc_b, BC, B);
+shape!(c07_pre_bc_ab, BC, AB);
+shape!(c07_pre_bc_bc, BC, BC);
+
+// K3 -------------------------------------------------------------------------------------------
+// @check id=C07 tier=quick cap=600 role=validate_ranges
+// @fns validate_ranges
+// @bound 0..2 ranges with full-width symbolic u64 start/end and a full-width symbolic object length
+// @stubs alloc::fmt::format -> String::new() (error messages only)
+#[kani::proof]
+#[kani::unwind(4)]
+#[kani::stub(alloc::fmt::format, fmt_stub)]
+fn c07_validate_ranges_iff_within_object() {
+    let len: u64 = kani::any();
+    let n: usize = kani::any();
+    kani::assume(n <= 2);
+    let r0 = kani::any::<u64>()..kani::any::<u64>();
+    let r1 = kani::any::<u64>()..kani::any::<u64>();
+    let all = [r0.clone(), r1.clone()];
+    let got = validate_ranges("S", &all[..n], len);
+    let ok0 = r0.start < r0.end && r0.end <= len;
+    let ok1 = r1.start < r1.end && r1.end <= len;
+    let expect = (n < 1 || ok0) && (n < 2 || ok1);
+    assert!(got.is_ok() == expect, "ranges accepted iff every range is non-empty and inside the object");
+    kani::cover!(got.is_ok() && n == 2 && r1.end == len, "end == len accepted");
+    kani::cover!(got.is_err() && n == 2 && ok0, "second range decides");
+    kani::cover!(got.is_err() && n == 1 && r0.start == r0.end, "empty range rejected");
+    std::mem::forget(got);
+}
+
+// @check id=C07 tier=thorough cap=300 expect=fail role=witness
+// @fns check_get_preconditions
+// @bound vacuity twin: must come back FAILED
+// @stubs alloc::fmt::format -> String::new() (error messages only)
+#[kani::proof]
+#[kani::unwind(8)]
+#[kani::stub(alloc::fmt::format, fmt_stub)]
+#[kani::stub(core::slice::memchr::memchr, memchr_stub)]
+fn c07_witness_must_fail() {
+    let loc = Path::from("k");
+    let mut opts = GetOptions::default();
+    opts.if_match = Some("a".to_string());
+    let got = check_get_preconditions(&loc, &mut opts, Some("a"), Some(instant(kani::any())));
+    std::mem::forget((got, opts, loc));
+    assert!(false, "reachability witness");
+}
